@@ -16,7 +16,9 @@ RULE = ("every admissible scenario (DESIGN 3.5) of FLAT(<=4), NEST(3,2), DEEP3 "
         "timer armed; livelock: iteration horizon). non-trivial = the scenario "
         "has a window smaller than its number of jobs together with a raising "
         "job, or a timeout over a never-ending job; distinct = distinct "
-        "(scenario, projected timed log)")
+        "(scenario, projected timed log). thorough adds the 7-job joins (two "
+        "edges into one job) with one never-ending forever job, window 2/3 and "
+        "<=2 of {raise, longer duration}")
 ASSUMPTIONS = [
     "CPython 3.12.1 asyncio (Task, wait, Queue, gather) on a BaseEventLoop "
     "subclass with a virtual clock",
